@@ -207,5 +207,12 @@ def struct(name, fields, cases, gendoc=None, specdoc=None, file=""):
 
 
 def scenario(sid, structs, aux=None, imports=None, grouped=False, groupaux=None, groupdoc=None):
+    aux = list(aux or [])
+    try:
+        import corpora
+        aux += corpora.AUX_SINK       # type declarations of the random structs built since the previous scenario
+        del corpora.AUX_SINK[:]
+    except ImportError:
+        pass
     return {"id": sid, "pkg": sid, "aux": aux or [], "imports": imports or [], "structs": structs,
             "grouped": grouped, "groupaux": groupaux or [], "groupdoc": groupdoc or []}
